@@ -9,7 +9,7 @@ from .formulas import get_func
 
 
 def _txt(n):
-    return " ".join(ast.unparse(n).split())
+    return common.src_of(n)
 
 
 def _calls_in(node):
